@@ -360,7 +360,7 @@ def core_program(rng, ticks=True):
     g = Gen(rng, ticks=ticks, derived=False, forbid={"atom-key"})
     top = Scope()
     forms = []
-    templates = rng.sample(["adder", "count", "compose", "varsum", "internal", "apply", "shadowdef", "shadowdef", "shadowparam", "shadowparam", "collect", "redefine", "plain", "plain", "plain"], rng.randint(3, 6))
+    templates = rng.sample(["adder", "count", "compose", "varsum", "internal", "apply", "shadowdef", "shadowdef", "shadowparam", "shadowparam", "collect", "redefine", "redefine", "plain", "plain", "plain"], rng.randint(3, 6))
     globals_ = []
     for t in templates:
         if t == "adder":        # closures of order 3
@@ -440,6 +440,19 @@ def core_program(rng, ticks=True):
                     forms.append(set_(w, lam([n_], [quote(vsym("assigned"))])))
                 forms.append(app("list", app(alias, lit(0)), app(alias, lit(rng.randint(1, 3))), app(w, lit(2))))
                 top.vars[w] = "opaque"; top.vars[alias] = "opaque"
+            # a closure three frames below the top level calls a top-level procedure by name: the name is looked up when
+            # the call happens, so a redefinition between two calls of the same closure is seen
+            sc, mk, hh = g.fresh(top, PROCNAMES), g.fresh(top, PROCNAMES), g.fresh(top, PROCNAMES)
+            if len({sc, mk, hh}) == 3:
+                a_, b_, c_ = rng.sample(NAMES, 3)
+                forms.append(define(sc, lam(["n"], [app("*", var("n"), lit(2))])))
+                forms.append(define(mk, lam([a_], [lam([b_], [lam([c_], [app(sc, app("+", var(a_), var(b_), var(c_)))])])])))
+                forms.append(define(hh, app(app(mk, lit(1)), lit(2))))
+                forms.append(app(hh, lit(3)))
+                forms.append(define(sc, lam(["n"], [app("*", var("n"), lit(10))])) if rng.random() < 0.5 else set_(sc, lam(["n"], [app("-", var("n"))])))
+                forms.append(app("list", app(hh, lit(3)), app(app(app(mk, lit(1)), lit(2)), lit(3))))
+                for nm in (sc, mk, hh):
+                    top.vars[nm] = "opaque"
             once = g.fresh(top, PROCNAMES)
             forms.append(define(once, lam([], [set_(once, lam([], [quote(vsym("again"))])), quote(vsym("first"))])))
             forms.append(app("list", app(once), app(once), app(once)))
